@@ -50,7 +50,13 @@ def build_simple(g):
         # (even number of edges: positive integers with gaps; odd: starting below zero)
         lab = ((lambda i: 3 * i + 2) if len(g['edges']) % 2 == 0 else (lambda i: 10 * i - 25)) if kind == 'networkx-gaps' else (lambda i: str(7 * i + 2))
         G = networkx.Graph()
-        G.add_nodes_from(lab(i) for i in range(g['n'], 0, -1))
+        if kind == 'networkx-digits' and len(g['edges']) % 2 == 1:
+            # digit strings that are different labels of equal numeric value ('01' and '1'): still one vertex each;
+            # inserted in increasing order, the padded one first, so that insertion order and text order agree on the ties
+            lab = lambda i: ('0' if i % 2 else '') + str((i + 1) // 2)       # noqa
+            G.add_nodes_from(lab(i) for i in range(1, g['n'] + 1))
+        else:
+            G.add_nodes_from(lab(i) for i in range(g['n'], 0, -1))
         G.add_edges_from((lab(u), lab(v)) for u, v in g['edges'])
         G.name = 'nx simple graph (labels with gaps)'
         return G
